@@ -184,7 +184,7 @@ class T1World(World):
     kind = "tt1"
 
     def __init__(self, sx, hr, size, prefix="", rsv=(), oldlen=0, old_lt_80=False,
-                 exact=False):
+                 exact=False, symbolic_window=None):
         self.sx = sx
         self.size = size
         phys = size
@@ -251,7 +251,10 @@ class T1World(World):
         valset = set(vals)
         for i in range(phys):
             if mem[i] is None:
-                if old_lt_80 and i in valset:
+                if symbolic_window is not None and not (
+                        symbolic_window[0] <= i < symbolic_window[1]):
+                    mem[i] = 0x55 if i >= 8 else i + 1
+                elif old_lt_80 and i in valset:
                     mem[i] = sx.int("m[%d]" % i, 0, 0x7F)
                 else:
                     mem[i] = sx.byte("m[%d]" % i)
@@ -293,7 +296,7 @@ class T3World(World):
     kind = "tt3"
 
     def __init__(self, sx, nbr, nbw, nmaxb, oldlen=0, extra=2, emulated=False,
-                 ic_code=0xEE, writef=0x00, rwflag=0x01):
+                 ic_code=0xEE, writef=0x00, rwflag=0x01, fill=None):
         self.sx = sx
         nblk = 1 + nmaxb + extra
         mem = [None] * (nblk * 16)
@@ -302,7 +305,7 @@ class T3World(World):
         cs = sum(attr)
         mem[0:16] = attr + [cs >> 8, cs & 255]
         for i in range(16, len(mem)):
-            mem[i] = sx.byte("m[%d]" % i)
+            mem[i] = sx.byte("m[%d]" % i) if fill is None else (fill + i // 16) & 0xFF
         self.nmaxb = nmaxb
         self.cap = nmaxb * 16
         self.oldlen = oldlen
@@ -338,7 +341,7 @@ class T4World(World):
     kind = "tt4"
 
     def __init__(self, sx, ver, mle, mlc, mfs, oldlen=0, typ="A", fsci=8, fwi=4,
-                 aid_v=2, tx_size=None, wtx_at=()):
+                 aid_v=2, tx_size=None, wtx_at=(), fill=None):
         self.sx = sx
         nl = 2 if ver >> 4 < 3 else 4
         self.nl = nl
@@ -354,7 +357,7 @@ class T4World(World):
         else:
             nfile[0:4] = [0, 0] + b2(oldlen)
         for i in range(nl, mfs):
-            nfile[i] = sx.byte("f[%d]" % i)
+            nfile[i] = sx.byte("f[%d]" % i) if fill is None else fill
         self.cap = mfs - nl
         self.oldlen = oldlen
         self.old = sx.mkbytes(nfile[nl:nl + oldlen], False)
